@@ -580,24 +580,30 @@ def _iseg_int(case, res):
         if k <= L // 2 and not f.is_a(ValueError):
             _raised(res, "intervalseg:int", case, f)
         return
-    fitted = call(lambda: [[int(x) for x in iv] for iv in t.intervals_])
-    if not fitted.ok or len(fitted.value) != k:
-        res.violate("intervalseg:int:count", "fitted intervals_ do not hold the requested "
-                    "number of intervals", expected=k,
-                    observed=fitted.value if fitted.ok else fitted.brief())
-        return
-    flat = [x for iv in fitted.value for x in iv]
-    if flat != list(range(L)):
-        res.violate("intervalseg:int:fit-coverage", "fitted interval indices are not a "
-                    "segmentation of 0..L-1", expected=list(range(L)), observed=fitted.value)
-        return
     o = call(lambda: t.transform(X2))
     res.outcome("intervalseg:int:%s:%s" % (case["cell"], o.kind))
     if not o.ok:
         return _raised(res, "intervalseg:int", case, o)
     _nt(res, case)
-    exp = [[[row[0][x] for x in iv] for iv in fitted.value] for row in v2]
-    _check_cells(res, "intervalseg:int", o.value, exp)
+    # black-box reference (independent of how intervals_ is represented): k consecutive
+    # intervals that together hold every time point exactly once, in order, with sizes that
+    # differ by at most one (larger ones first, as for an equal split)
+    base, extra = divmod(L, k)
+    sizes = [base + (1 if j < extra else 0) for j in range(k)]
+    bounds = [sum(sizes[:j]) for j in range(k + 1)]
+    exp = [[row[0][bounds[j]:bounds[j + 1]] for j in range(k)] for row in v2]
+    got = o.value
+    if got.shape[1] != k:
+        res.violate("intervalseg:int:count", "number of output intervals", expected=k,
+                    observed=int(got.shape[1]))
+        return
+    if any(len(c) != len(e) for c, e in zip(list(got.iloc[0]), exp[0])):
+        res.violate("intervalseg:int:length", "intervals do not partition the series into "
+                    "equal parts (every time point exactly once)",
+                    expected=[len(e) for e in exp[0]],
+                    observed=[len(c) for c in got.iloc[0]])
+        return
+    _check_cells(res, "intervalseg:int", got, exp)
 
 
 def _iseg_arr(case, res):
